@@ -45,7 +45,7 @@ def enc_path(p):
 def enc_fs(root, files):
     items = []
     for rel, content in sorted(files.items()):
-        items.append(enc_path(root + list(rel)) + " " + enc_str(content))
+        items.append(enc_path(root + rel.split("/")) + " " + enc_str(content))
     return "%d %s" % (len(items), " ".join(items))
 
 
@@ -65,8 +65,8 @@ def encode_case(c):
         files = c.get("files")
         if files is None:
             return "COMP %s 0 0 %s" % (enc_opts(c.get("opts")), enc_str(c["text"]))
-        main = tuple(c["main"])
-        return "COMP %s 1 %s %s %s" % (enc_opts(c.get("opts")), enc_path(root + list(main)), enc_fs(root, files), enc_str(files[main]))
+        main = c["main"]
+        return "COMP %s 1 %s %s %s" % (enc_opts(c.get("opts")), enc_path(root + main.split("/")), enc_fs(root, files), enc_str(files[main]))
     if k == "raw":
         return "RAWC %s 0 0 %d %s" % (enc_opts(c.get("opts")), len(c["lines"]), " ".join(enc_raw(x) for x in c["lines"]))
     if k == "tab":
@@ -81,8 +81,16 @@ def run_model(cases, driver=DRIVER):
     if not cases:
         return []
     inp = "\n".join(encode_case(c) for c in cases) + "\n"
-    p = subprocess.run(["bash", "-c", "ulimit -s unlimited 2>/dev/null; exec \"$0\"", driver], input=inp.encode(), stdout=subprocess.PIPE, stderr=subprocess.PIPE)
-    lines = p.stdout.decode().splitlines()
+    try:
+        p = subprocess.run(["bash", "-c", "ulimit -s unlimited 2>/dev/null; exec \"$0\"", driver], input=inp.encode(), stdout=subprocess.PIPE, stderr=subprocess.PIPE,
+                           timeout=max(120, len(cases) // 2))
+        lines = p.stdout.decode().splitlines()
+    except subprocess.TimeoutExpired as e:
+        if len(cases) == 1:
+            return [{"status": "DRIVER", "err": "model timeout"}]
+        # isolate the slow case(s)
+        h = len(cases) // 2
+        return run_model(cases[:h], driver) + run_model(cases[h:], driver)
     out = []
     for ln in lines:
         try:
@@ -231,11 +239,11 @@ def run_impl_case(c, timeout=20.0):
             if os.path.exists(root):
                 shutil.rmtree(root)
             for rel, content in c["files"].items():
-                p = os.path.join(root, *rel)
+                p = os.path.join(root, *rel.split("/"))
                 os.makedirs(os.path.dirname(p), exist_ok=True)
                 with open(p, "w", encoding="utf-8", newline="") as f:
                     f.write(content)
-            main = os.path.join(root, *c["main"])
+            main = os.path.join(root, *c["main"].split("/"))
             # the project config is not part of these cases
             o2 = ds.CompileOptions(**dict(DEFAULT_OPTS, **(c.get("opts") or {}), use_project_config=False))
             return compiled_rec(ds.Compiler(o2).compile_file(main))
